@@ -111,7 +111,7 @@ def run(tier: str, replay=None) -> int:
         histories.append(hist)
         for (kind, ci, arg) in hist:
             c = compilers[ci]
-            prior = list(HX.preds_written)
+            prior = list(c.transformer.ext.preds_written)
             if kind == "cstmt":
                 pr = parsed.get(arg) or rc.parse_programs([arg])[0]
                 if pr[0] != "ok":
